@@ -245,7 +245,7 @@ func decodeRecord(reader *bytes.Reader, baseOffset int64, baseTimestamp int64, t
 		return Record{}, err
 	}
 
-	timestampDelta, err := readVarint(buf)
+	timestampDelta, err := readVarlong(buf)
 	if err != nil {
 		return Record{}, err
 	}
@@ -304,7 +304,7 @@ func decodeRecord(reader *bytes.Reader, baseOffset int64, baseTimestamp int64, t
 		Topic:     topic,
 		Partition: partition,
 		Offset:    baseOffset + int64(offsetDelta),
-		Timestamp: baseTimestamp + int64(timestampDelta),
+		Timestamp: baseTimestamp + timestampDelta,
 		Key:       key,
 		Value:     value,
 		Headers:   headers,
@@ -361,6 +361,28 @@ func readVarint(reader *bytes.Reader) (int32, error) {
 		}
 	}
 	return zigZagDecode(value), nil
+}
+
+// readVarlong reads a zigzag varlong: the record's timestamp delta is 64 bits
+// wide (client-supplied timestamps within one batch may lie weeks apart).
+func readVarlong(reader *bytes.Reader) (int64, error) {
+	var shift uint
+	var value uint64
+	for {
+		b, err := reader.ReadByte()
+		if err != nil {
+			return 0, err
+		}
+		value |= uint64(b&0x7f) << shift
+		if b&0x80 == 0 {
+			break
+		}
+		shift += 7
+		if shift > 63 {
+			return 0, errors.New("varlong too long")
+		}
+	}
+	return int64(value>>1) ^ -int64(value&1), nil
 }
 
 func zigZagDecode(value int32) int32 {
